@@ -1644,3 +1644,20 @@ M("c11o", "fire", ["C11"], "get_variants: the recursion result is thrown away",
 
 M("c11p", "fire", ["C11"], "get_variants: only the pseudo-type 'self' is passed down",
   (CI, '''types=[i for i in types if i != "self"], recursive=True))''', '''types=[i for i in types if i == "self"], recursive=True))'''))
+
+M("c01o", "fire", ["C01"], "the child list is probed under a misspelt key: children are never read",
+  (CI, '''        if "variants" in data:
+            variant_ids = sorted(data["variants"])''', '''        if "variant" in data:
+            variant_ids = sorted(data["variants"])'''))
+
+M("c11q", "fire", ["C11"], "the 'is this a Variant' probe asks for an attribute nothing has: parent pointers are never set",
+  (CI, '''        if hasattr(self, "uid"):
+            # detect Variant; we don't want to set parent for VariantBase or Variants''', '''        if hasattr(self, "uuid"):
+            # detect Variant; we don't want to set parent for VariantBase or Variants'''))
+
+M("c05s", "fire", ["C05"], "documents without a release type are read as type 'g'",
+  (CI, '''        self.type = data[self._section].get("type", "ga").lower()
+        self.is_layered = bool(data[self._section].get("is_layered", False))
+        self.internal''', '''        self.type = data[self._section].get("type", "g").lower()
+        self.is_layered = bool(data[self._section].get("is_layered", False))
+        self.internal'''))
